@@ -166,4 +166,73 @@ theorem accepts_edc_direct (p : Particle) (h : M.accepts p = true) :
     simpa [Ctx.accepts, Ctx.checkModel] using h
   simpa using outer_edc M (M.visited p) [] {} [] hinv herr
 
+
+/-! ### XSD 1.1: an element / wildcard pair is never an error -/
+
+/-- the two particles of a UPA error are of the same kind (both elements or both wildcards) -/
+def SameKindErr : CMErr → Prop
+  | .edc _ _ => True
+  | .sameGroup pe e => M.isAny pe = M.isAny e
+  | .upa pe e => M.isAny pe = M.isAny e
+
+theorem stage1_err (hv : M.v11 = true) (e : Nat) (cp : List Nat) (pe : Nat) (pp : List Nat) (acc : Acc)
+    (err : CMErr) (h : M.stage1 e cp pe pp acc = .error err) : SameKindErr M err := by
+  unfold Ctx.stage1 at h
+  simp only [hv, Bool.true_and] at h
+  cases hpe : M.isAny pe <;> cases he : M.isAny e <;> simp only [hpe, he] at h <;>
+    (repeat' split at h) <;> first | (simp at h; done) | (cases h; simp_all [SameKindErr])
+
+theorem stage2_err (hv : M.v11 = true) (e : Nat) (cp : List Nat) (pe : Nat) (pp : List Nat) (acc : Acc)
+    (err : CMErr) (h : (M.stage2 e cp pe pp acc).2 = some err) : SameKindErr M err := by
+  unfold Ctx.stage2 at h
+  simp only [hv, Bool.true_and] at h
+  cases hpe : M.isAny pe <;> cases he : M.isAny e <;> simp only [hpe, he] at h <;>
+    (repeat' split at h) <;> first | (simp at h; done) | (simp at h; subst h; simp_all [SameKindErr])
+
+theorem upaStep_err (hv : M.v11 = true) (e : Nat) (cp : List Nat) (pe : Nat) (pp : List Nat) (acc : Acc)
+    (err : CMErr) (h : (M.upaStep e cp pe pp acc).2 = some err) : SameKindErr M err := by
+  unfold Ctx.upaStep at h
+  split at h
+  · rename_i err' h1
+    simp only [Option.some.injEq] at h
+    subst h
+    exact stage1_err M hv e cp pe pp acc err' h1
+  · simp at h
+  · exact stage2_err M hv e cp pe pp _ err h
+
+theorem against_err (hv : M.v11 = true) (e : Nat) (cp : List Nat) : ∀ (d : List Entry) (acc : Acc) (err : CMErr),
+    (M.against e cp d acc).2 = some err → SameKindErr M err := by
+  intro d
+  induction d with
+  | nil => intro acc err h; simp [Ctx.against] at h
+  | cons en rest ih =>
+    intro acc err h
+    unfold Ctx.against at h
+    split at h
+    · simp only [Option.some.injEq] at h; subst h; trivial
+    · split at h
+      · exact ih _ _ h
+      · split at h
+        · rename_i acc' err' hstep
+          simp only [Option.some.injEq] at h
+          subst h
+          exact upaStep_err M hv e cp en.leaf en.path acc err' (by rw [hstep])
+        · exact ih _ _ h
+
+theorem outer_err (hv : M.v11 = true) : ∀ (l : List (Nat × List Nat)) (d : List Entry) (acc : Acc) (err : CMErr),
+    (M.outer l d acc).err = some err → SameKindErr M err := by
+  intro l
+  induction l with
+  | nil => intro d acc err h; simp [Ctx.outer] at h
+  | cons hd rest ih =>
+    obtain ⟨e, cp⟩ := hd
+    intro d acc err h
+    unfold Ctx.outer at h
+    split at h
+    · rename_i acc' err' hag
+      simp only [Option.some.injEq] at h
+      subst h
+      exact against_err M hv e cp d acc err' (by rw [hag])
+    · exact ih _ _ _ h
+
 end XsVerif.CM
